@@ -7,14 +7,16 @@ rendering of the program must print according to S.
 Values are the trees of S: atoms are integers; kinds: 1 list, 2 pair, 3 immutable vector,
 4 hash map (slots k1 v1 k2 v2 ... sorted by key), 5 hash set (sorted), 6 string (character codes), 7 struct `rec`.
 
-WHICH rearrangement of slots a Steel primitive performs (`plan`) is the table of this file; it is compared
+WHICH rearrangement of slots a Steel primitive performs is `plan` of PrimTable.lean; it is compared
 with the real engine on every run.  Operations whose real implementation may update in place are
 compiled to `Op.update` on the argument's stack slot (a temporary holder), everything else to `Op.new`.
 
 Output per program:  \x1eB, the expected lines, \x1eS copy=.. inplace=.. moves=.. aliases=.. objects=.. , and
 \x1eX <message> when the program is ill-formed or M and S disagree (never on the unchanged tree).
 -/
-import SteelVerif.C03.Model
+import SteelVerif.C03.PrimTable
+import SteelVerif.C03.VM
+import SteelVerif.C01.BCParse
 namespace SteelVerif.C03
 
 inductive Atom where
@@ -83,205 +85,12 @@ partial def showTree : Tree → String
   | .node 7 [a, b] => "[" ++ showTree a ++ " " ++ showTree b ++ "]"
   | .node k cs => "<" ++ toString k ++ " " ++ " ".intercalate (cs.map showTree) ++ ">"
 
-/-! ### the table of the Steel primitives: which rearrangement of slots each one performs -/
+/-! ### the table of the Steel primitives: `PrimTable.lean` (`plan`); here by the name used in the abstract programs -/
 
-/-- an evaluated argument: a literal integer, or a temporary holder (a stack slot) with its value in S -/
-inductive Arg where
-  | lit (n : Int)
-  | held (h : Nat) (t : Tree)
-deriving Inhabited
-
-def Arg.src : Arg → Src
-  | .lit n => .lit n
-  | .held h _ => .hold h
-
-def Arg.tree : Arg → Tree
-  | .lit n => .atom n
-  | .held _ t => t
-
-def Arg.kind (a : Arg) : Nat := match a.tree with | .node k _ => k | .atom _ => 0
-def Arg.cs (a : Arg) : List Tree := a.tree.children
-def Arg.int? (a : Arg) : Option Int := match a.tree with | .atom n => some n | _ => none
-def Arg.holder? : Arg → Option Nat | .held h _ => some h | .lit _ => none
-
-/-- what the compiled statement does -/
-inductive Plan where
-  | upd (target : Nat) (k : Nat) (srcs : List Src)   -- functional update of argument `target` (may run in place)
-  | mk (k : Nat) (srcs : List Src)                   -- a new object
-  | proj (j i : Nat)                                 -- slot `i` of argument `j`
-  | scalar (n : Int)
-  | same (j : Nat)                                   -- the argument itself
-  | bad (msg : String)
-
-def olds (n : Nat) : List Src := (List.range n).map Src.old
-def slotsOfArg (a : Arg) : List Src :=
-  match a with
-  | .held h t => (List.range t.children.length).map (Src.slot h)
-  | .lit _ => []
-
-def keyOf : Tree → Int | .atom a => a | _ => 0
-
-/-- position of key `k` in a sorted key/value slot list: (index of the pair, found?) -/
-def findKey (k : Int) : List Tree → Nat → Nat × Bool
-  | key :: _ :: rest, i => if keyOf key = k then (i, true) else if keyOf key > k then (i, false) else findKey k rest (i + 1)
-  | _, i => (i, false)
-
-def findElem (k : Int) : List Tree → Nat → Nat × Bool
-  | e :: rest, i => if keyOf e = k then (i, true) else if keyOf e > k then (i, false) else findElem k rest (i + 1)
-  | [], i => (i, false)
-
-def isInts (cs : List Tree) : Bool := cs.all (fun t => match t with | .atom _ => true | _ => false)
-
-/-- insertion sort of slot sources by key -/
-def insertBy (k : Int) (s : Src) : List (Int × Src) → List (Int × Src)
-  | [] => [(k, s)]
-  | (k', s') :: r => if k ≤ k' then (k, s) :: (k', s') :: r else (k', s') :: insertBy k s r
-
-def plan (op : String) (args : List Arg) : Plan :=
-  let a0 := args.getD 0 (.lit 0)
-  let a1 := args.getD 1 (.lit 0)
-  let a2 := args.getD 2 (.lit 0)
-  let n0 := a0.cs.length
-  let idx (a : Arg) (bound : Nat) (strict : Bool) : Option Nat :=
-    match a.int? with
-    | some i => if i < 0 then none else if (if strict then i.toNat < bound else i.toNat ≤ bound) then some i.toNat else none
-    | none => none
-  match op with
-  | "list" => .mk 1 (args.map Arg.src)
-  | "vec" => .mk 3 (args.map Arg.src)
-  | "rec" => if args.length = 2 then .mk 7 (args.map Arg.src) else .bad "rec"
-  | "id" => match a0 with | .lit n => .scalar n | .held _ _ => .same 0
-  | "hash" =>
-    -- later keys overwrite earlier ones
-    let rec go : List Arg → List (Int × Src) → Option (List (Int × Src))
-      | k :: v :: r, acc =>
-        match k.int? with
-        | some ki => go r (insertBy ki v.src (acc.filter (fun p => p.1 ≠ ki)))
-        | none => none
-      | [], acc => some acc
-      | _, _ => none
-    match go args [] with
-    | some kvs => .mk 4 (kvs.flatMap (fun p => [Src.lit p.1, p.2]))
-    | none => .bad "hash"
-  | "hashset" =>
-    if args.all (fun a => a.int?.isSome) then
-      let ks := args.foldl (fun acc a => let k := a.int?.getD 0; insertBy k (.lit k) (acc.filter (fun p => p.1 ≠ k))) []
-      .mk 5 (ks.map (·.2))
-    else .bad "hashset"
-  | "cons" =>
-    if a1.kind = 1 then .upd 1 1 (a0.src :: olds a1.cs.length) else .mk 2 [a0.src, a1.src]
-  | "car" => if (a0.kind = 1 && n0 > 0) || a0.kind = 2 then .proj 0 0 else .bad "car"
-  | "cdr" =>
-    if a0.kind = 2 then .proj 0 1
-    else if a0.kind = 1 && n0 > 0 then .upd 0 1 ((olds n0).drop 1) else .bad "cdr"
-  | "rest" => if a0.kind = 1 && n0 > 0 then .upd 0 1 ((olds n0).drop 1) else .bad "rest"
-  | "append" => if a0.kind = 1 && a1.kind = 1 then .upd 0 1 (olds n0 ++ slotsOfArg a1) else .bad "append"
-  | "append3" =>
-    if a0.kind = 1 && a1.kind = 1 && a2.kind = 1 then .upd 0 1 (olds n0 ++ slotsOfArg a1 ++ slotsOfArg a2) else .bad "append3"
-  | "tr-ext" => if a0.kind = 1 && a1.kind = 1 then .mk 1 (slotsOfArg a0 ++ slotsOfArg a1) else .bad "tr-ext"
-  | "reverse" => if a0.kind = 1 then .upd 0 1 (olds n0).reverse else .bad "reverse"
-  | "push-back" => if a0.kind = 1 then .upd 0 1 (olds n0 ++ [a1.src]) else .bad "push-back"
-  | "list-tail" => match a0.kind, idx a1 n0 false with
-    | 1, some i => .mk 1 ((slotsOfArg a0).drop i)
-    | _, _ => .bad "list-tail"
-  | "take" => match a0.kind, idx a1 n0 false with
-    | 1, some i => .mk 1 ((slotsOfArg a0).take i)
-    | _, _ => .bad "take"
-  | "list-ref" => match a0.kind, idx a1 n0 true with
-    | 1, some i => .proj 0 i
-    | _, _ => .bad "list-ref"
-  | "last" => if a0.kind = 1 && n0 > 0 then .proj 0 (n0 - 1) else .bad "last"
-  | "length" => if a0.kind = 1 then .scalar n0 else .bad "length"
-  | "sort" =>
-    if a0.kind = 1 && isInts a0.cs then
-      let ks := (a0.cs.map keyOf).foldl (fun acc k => insertBy k (.lit k) acc) []
-      .mk 1 (ks.map (·.2))
-    else .bad "sort"
-  | "map-id" => if a0.kind = 1 then .mk 1 (slotsOfArg a0) else .bad "map-id"
-  | "list->vec" => if a0.kind = 1 then .mk 3 (slotsOfArg a0) else .bad "list->vec"
-  | "vec->list" => if a0.kind = 3 then .mk 1 (slotsOfArg a0) else .bad "vec->list"
-  | "tr-list" => if a0.kind = 1 || a0.kind = 3 then .mk 1 (slotsOfArg a0) else .bad "tr-list"
-  | "tr-vec" => if a0.kind = 1 || a0.kind = 3 then .mk 3 (slotsOfArg a0) else .bad "tr-vec"
-  | "tr-set" =>
-    if (a0.kind = 1 || a0.kind = 3) && isInts a0.cs then
-      let ks := (a0.cs.map keyOf).foldl (fun acc k => insertBy k (.lit k) (acc.filter (fun p => p.1 ≠ k))) []
-      .mk 5 (ks.map (·.2))
-    else .bad "tr-set"
-  | "vpush" => if a0.kind = 3 then .upd 0 3 (olds n0 ++ [a1.src]) else .bad "vpush"
-  | "vpushf" => if a0.kind = 3 then .upd 0 3 (a1.src :: olds n0) else .bad "vpushf"
-  | "vset" => match a0.kind, idx a1 n0 true with
-    | 3, some i => .upd 0 3 ((olds n0).take i ++ [a2.src] ++ (olds n0).drop (i + 1))
-    | _, _ => .bad "vset"
-  | "vrest" => if a0.kind = 3 && n0 > 0 then .upd 0 3 ((olds n0).drop 1) else .bad "vrest"
-  | "vtake" => match a0.kind, idx a1 n0 false with
-    | 3, some i => .upd 0 3 ((olds n0).take i)
-    | _, _ => .bad "vtake"
-  | "vdrop" => match a0.kind, idx a1 n0 false with
-    | 3, some i => .upd 0 3 ((olds n0).drop i)
-    | _, _ => .bad "vdrop"
-  | "vappend" => if a0.kind = 3 && a1.kind = 3 then .mk 3 (slotsOfArg a0 ++ slotsOfArg a1) else .bad "vappend"
-  | "vref" => match a0.kind, idx a1 n0 true with
-    | 3, some i => .proj 0 i
-    | _, _ => .bad "vref"
-  | "hins" => match a0.kind, a1.int? with
-    | 4, some k =>
-      let (p, found) := findKey k a0.cs 0
-      if found then .upd 0 4 ((olds n0).take (2 * p) ++ [.old (2 * p), a2.src] ++ (olds n0).drop (2 * p + 2))
-      else .upd 0 4 ((olds n0).take (2 * p) ++ [.lit k, a2.src] ++ (olds n0).drop (2 * p))
-    | _, _ => .bad "hins"
-  | "hrem" => match a0.kind, a1.int? with
-    | 4, some k =>
-      let (p, found) := findKey k a0.cs 0
-      if found then .upd 0 4 ((olds n0).take (2 * p) ++ (olds n0).drop (2 * p + 2)) else .upd 0 4 (olds n0)
-    | _, _ => .bad "hrem"
-  | "hunion" =>
-    if a0.kind = 4 && a1.kind = 4 then
-      -- the values of the left map win
-      let rec pairs : List Tree → Nat → (Nat → Src) → List (Int × Src × Src)
-        | k :: _ :: r, i, f => (keyOf k, f (2 * i), f (2 * i + 1)) :: pairs r (i + 1) f
-        | _, _, _ => []
-      let left := pairs a0.cs 0 Src.old
-      let right := match a1 with
-        | .held h _ => pairs a1.cs 0 (Src.slot h)
-        | .lit _ => []
-      let extra := right.filter (fun p => !(left.any (fun q => q.1 = p.1)))
-      let all := (left ++ extra).foldl (fun acc p => insertBy p.1 p.2.1 acc) []
-      let valOf (k : Int) : Src := match (left ++ extra).find? (fun p => p.1 = k) with
-        | some p => p.2.2
-        | none => .lit 0
-      .upd 0 4 (all.flatMap (fun p => [p.2, valOf p.1]))
-    else .bad "hunion"
-  | "hclear" => if a0.kind = 4 then .upd 0 4 [] else .bad "hclear"
-  | "href" => match a0.kind, a1.int? with
-    | 4, some k =>
-      let (p, found) := findKey k a0.cs 0
-      if found then .proj 0 (2 * p + 1) else .bad "href: key"
-    | _, _ => .bad "href"
-  | "hlen" => if a0.kind = 4 then .scalar (n0 / 2) else .bad "hlen"
-  | "hkeys" =>
-    if a0.kind = 4 then
-      let rec keys : List Tree → List Src
-        | k :: _ :: r => .lit (keyOf k) :: keys r
-        | _ => []
-      .mk 1 (keys a0.cs)
-    else .bad "hkeys"
-  | "sins" => match a0.kind, a1.int? with
-    | 5, some k =>
-      let (p, found) := findElem k a0.cs 0
-      if found then .upd 0 5 (olds n0) else .upd 0 5 ((olds n0).take p ++ [.lit k] ++ (olds n0).drop p)
-    | _, _ => .bad "sins"
-  | "sclear" => if a0.kind = 5 then .upd 0 5 [] else .bad "sclear"
-  | "sunion" =>
-    if a0.kind = 5 && a1.kind = 5 then
-      let ks := ((a0.cs ++ a1.cs).map keyOf).foldl (fun acc k => insertBy k (.lit k) (acc.filter (fun p => p.1 ≠ k))) []
-      .mk 5 (ks.map (·.2))
-    else .bad "sunion"
-  | "set->list" => if a0.kind = 5 then .mk 1 (slotsOfArg a0) else .bad "set->list"
-  | "spush" => if a0.kind = 6 && a1.kind = 6 then .upd 0 6 (olds n0 ++ slotsOfArg a1) else .bad "spush"
-  | "sappend" => if a0.kind = 6 && a1.kind = 6 then .mk 6 (slotsOfArg a0 ++ slotsOfArg a1) else .bad "sappend"
-  | "rec-a" => if a0.kind = 7 then .proj 0 0 else .bad "rec-a"
-  | "rec-b" => if a0.kind = 7 then .proj 0 1 else .bad "rec-b"
-  | _ => .bad ("unknown operation " ++ op)
+def planS (op : String) (args : List Arg) : Plan :=
+  match PrimOp.ofString op with
+  | some p => plan p args
+  | none => .bad ("unknown operation " ++ op)
 
 /-! ### the interpreter -/
 
@@ -394,7 +203,7 @@ def DS.define (d : DS) (x op : String) (as : List Atom) (rest : List Stmt) : DS 
   let (d, args) := d.args as rest
   if d.err.isSome then d else
   let (d, hx) := d.bindName x
-  match plan op args with
+  match planS op args with
   | .bad msg => d.fail ("invalid operation " ++ op ++ ": " ++ msg)
   | .scalar n => (d.op (.lit hx n)).dropTemps args
   | .same j =>
@@ -515,6 +324,378 @@ def runProgram (lines : List (List String)) : DS :=
   let (stmts, _) := parseBlock lines #[]
   exec { assigned := assignedIn stmts.toList } stmts.toList
 
+
+/-! ### the same abstract programs, compiled to the lowered core and run on the VM over the real op codes
+
+Straight-line programs (no continuation re-entry, no threads) are compiled to ONE expression of `C01C.Core`: every
+`def` of a local is a `let` (the variable is the next stack slot), every use of a local is `loc i mv` with `mv` = the
+last-use rule of `DS.arg` (MOVEREADLOCAL), `set` is `setLoc`, globals / closures / boxes are `define`s of global slots,
+a closure is `(lambda () x)` capturing the slot of `x` (COPYCAPTURESTACK) and `%f` calls it (READCAPTURED), primitives
+are called through CALLGLOBAL.  `print` is a marker (`PUSHCONST n; POPSINGLE`, n ≥ `markBase`) at which the driver
+unfolds the holder of the printed variable.  The code is `C01C.compileTop` of that expression, run by `vm`
+(`VM.lean`) on the reference-counted store: what it prints must be what S prints. -/
+
+open SteelVerif.C01C (Core Instr compileTop) in
+structure CEnv where
+  locals : List (String × Nat) := []
+  nloc : Nat := 0
+  globals : List (String × Nat) := []
+  prints : Array (String × Nat × Nat) := #[]     -- tag, kind (0 local slot, 1 global slot, 2 capture 0 of the closure in a global), index
+  bad : Option String := none
+deriving Inhabited
+
+def markBase : Int := 1000000000000
+def userGlobalBase : Nat := 500
+
+def CEnv.glob (e : CEnv) (x : String) : CEnv × Nat :=
+  match e.globals.find? (·.1 == x) with
+  | some p => (e, p.2)
+  | none => ({ e with globals := (x, userGlobalBase + e.globals.length) :: e.globals }, userGlobalBase + e.globals.length)
+
+def CEnv.fail (e : CEnv) (msg : String) : CEnv := if e.bad.isSome then e else { e with bad := some msg }
+
+open SteelVerif.C01C (Core) in
+def compArg (e : CEnv) (a : Atom) (rest : List Stmt) (later : Bool) : CEnv × Core :=
+  match a with
+  | .int n => (e, .const (.int n))
+  | .str s => (e, .callG (gOf .str) (s.toList.map (fun c => Core.const (.int c.toNat))))
+  | .clo f =>
+    match e.globals.find? (·.1 == f) with
+    | some p => (e, .callG p.2 [])
+    | none => (e.fail ("unbound closure " ++ f), .const .void)
+  | .name x =>
+    match e.locals.find? (·.1 == x) with
+    | some p => (e, .loc p.2 (isLocal x && !later && !(mentions x rest)))
+    | none =>
+      match e.globals.find? (·.1 == x) with
+      | some p => (e, .glob p.2)
+      | none => (e.fail ("unbound " ++ x), .const .void)
+
+open SteelVerif.C01C (Core) in
+def compArgs (e : CEnv) (as : List Atom) (rest : List Stmt) : CEnv × List Core :=
+  let rec go (e : CEnv) : List Atom → List Core → CEnv × List Core
+    | [], acc => (e, acc.reverse)
+    | a :: r, acc =>
+      let later := match a with
+        | .name x => r.any (atomMentions x)
+        | _ => false
+      let (e, c) := compArg e a rest later
+      go e r (c :: acc)
+  go e as []
+
+open SteelVerif.C01C (Core) in
+partial def compStmts (e : CEnv) : List Stmt → CEnv × Core
+  | [] => (e, .const .void)
+  | st :: rest =>
+    if e.bad.isSome then (e, .const .void) else
+    match st with
+    | .def_ x op as =>
+      let x := if x.startsWith "!" then (x.drop 1).toString else x
+      match PrimOp.ofString op with
+      | none => (e.fail ("unknown operation " ++ op), .const .void)
+      | some p =>
+        let (e, args) := compArgs e as rest
+        let call := Core.callG (gOf p) args
+        match e.locals.find? (·.1 == x) with
+        | some q =>
+          let (e, r) := compStmts e rest
+          (e, .seq (.setLoc q.2 call) r)
+        | none =>
+          if isLocal x then
+            let off := e.nloc
+            let (e, r) := compStmts { e with locals := (x, off) :: e.locals, nloc := off + 1 } rest
+            (e, .let_ off [call] r)
+          else
+            let (e, g) := e.glob x
+            let (e, r) := compStmts e rest
+            (e, .seq (.define g call) r)
+    | .gset g a =>
+      let (e, c) := compArg e a rest false
+      let (e, slot) := e.glob g
+      let (e, r) := compStmts e rest
+      (e, .seq (.define slot c) r)
+    | .clo f x =>
+      match e.locals.find? (·.1 == x) with
+      | some q =>
+        let (e, slot) := e.glob f
+        let (e, r) := compStmts e rest
+        (e, .seq (.define slot (.lam 0 false [.stack q.2] (.cap 0))) r)
+      | none => (e.fail ("closure over a non-local " ++ x), .const .void)
+    | .print tag a =>
+      let what : Option (Nat × Nat) := match a with
+        | .name x =>
+          match e.locals.find? (·.1 == x) with
+          | some q => some (0, q.2)
+          | none => (e.globals.find? (·.1 == x)).map (fun p => (1, p.2))
+        | .clo f => (e.globals.find? (·.1 == f)).map (fun p => (2, p.2))
+        | _ => none
+      match what with
+      | none => (e.fail ("print: " ++ tag), .const .void)
+      | some (k, i) =>
+        let idx := e.prints.size
+        let (e, r) := compStmts { e with prints := e.prints.push (tag, k, i) } rest
+        (e, .seq (.const (.int (markBase + idx))) r)
+    | .loop .. => (e.fail "loop (expanded before compilation)", .const .void)
+    | _ => (e.fail "not a straight-line program", .const .void)
+
+/-- loops are unrolled into `def`s exactly as `exec` does -/
+def expandLoops (n0 : Nat) : List Stmt → List Stmt
+  | [] => []
+  | .loop y op x n :: rest =>
+    let a0 := "$v" ++ toString n0
+    [Stmt.def_ (a0 ++ "_0") "id" [.name x]] ++
+    (List.range n).map (fun i => Stmt.def_ (a0 ++ "_" ++ toString (i + 1)) op (loopArgs op (a0 ++ "_" ++ toString i) i)) ++
+    [Stmt.def_ y "id" [.name (a0 ++ "_" ++ toString n)]] ++ expandLoops (n0 + 1) rest
+  | st :: rest => st :: expandLoops (n0 + 1) rest
+
+def straightLine : List Stmt → Bool
+  | [] => true
+  | .kont .. :: _ => false
+  | .spawn .. :: _ => false
+  | .send .. :: _ => false
+  | .recv .. :: _ => false
+  | .join _ :: _ => false
+  | _ :: rest => straightLine rest
+
+structure VmOut where
+  status : String := "skip"
+  steps : Nat := 0
+  inplace : Nat := 0
+  copy : Nat := 0
+  moves : Nat := 0
+  clones : Nat := 0
+  lines : Array String := #[]
+  err : Option String := none
+  inplaceK : Array Nat := Array.replicate 8 0     -- in-place updates per kind of the updated object
+  copyK : Array Nat := Array.replicate 8 0
+deriving Inhabited
+
+def VmOut.count (o : VmOut) (kind : Nat) (copied : Bool) : VmOut :=
+  if copied then { o with copy := o.copy + 1, copyK := o.copyK.modify kind (· + 1) }
+  else { o with inplace := o.inplace + 1, inplaceK := o.inplaceK.modify kind (· + 1) }
+
+/-- integers back from their tagged form -/
+partial def untag : Tree → Tree
+  | .atom a => if a % 4 == 0 then .atom (a / 4) else .atom a
+  | .node k cs => .node k (cs.map untag)
+
+def viewTree (s : State) (h : Nat) : Option Tree :=
+  match get s.hold h with
+  | some v => unfold s.store 64 v
+  | none => none
+
+open SteelVerif.C01C (Instr) in
+partial def vmLoop (env : CEnv) (k : VK) (s : State) (fuel : Nat) (o : VmOut) : VmOut :=
+  if fuel = 0 then { o with status := "bad", err := some "vm: out of fuel" } else
+  -- a print marker?
+  let o := match k.status, k.code[k.ip]? with
+    | .running, some (.PUSHCONST (.int n)) =>
+      if n ≥ markBase then
+        match env.prints[(n - markBase).toNat]? with
+        | some (tag, kind, i) =>
+          let t : Option Tree := match kind with
+            | 0 => viewTree s (hStk 0 i)
+            | 1 => viewTree s (hGlob i)
+            | _ => match viewTree s (hGlob i) with
+              | some (.node _ (c :: _)) => some c
+              | _ => none
+          match t with
+          | some t => { o with lines := o.lines.push (tag ++ " " ++ showTree (untag t)) }
+          | none => { o with lines := o.lines.push (tag ++ " <unbound>") }
+        | none => o
+      else o
+    | _, _ => o
+  match vm.next k ((vm.want k).map (peekM s vmDepth)) with
+  | none =>
+    match k.status with
+    | .halted => { o with status := "ok" }
+    | .error e => { o with status := "bad", err := some ("vm: " ++ reprStr e ++ " at ip " ++ toString k.ip) }
+    | _ => { o with status := "bad", err := some "vm: stuck" }
+  | some (ops, k') =>
+    let (s', o) := ops.foldl (fun (acc : State × VmOut) op =>
+      let s2 := step acc.1 op
+      let o := acc.2
+      let o := match op with
+        | .update _ kd _ _ => o.count kd (s2.store.length > acc.1.store.length)
+        | .move .. => { o with moves := o.moves + 1 }
+        | .alias .. => { o with clones := o.clones + 1 }
+        | .get .. => { o with clones := o.clones + 1 }
+        | _ => o
+      (s2, o)) (s, o)
+    vmLoop env k' s' (fuel - 1) { o with steps := o.steps + 1 }
+
+open SteelVerif.C01C (compileTop) in
+def runVM (s0 : State) (stmts : List Stmt) : VmOut :=
+  if !(straightLine stmts) then {} else
+  let stmts := expandLoops 0 stmts
+  let (env, e) := compStmts {} stmts
+  match env.bad with
+  | some msg => { status := "skip", err := some msg }
+  | none =>
+    let code := compileTop e
+    vmLoop env { code := code } s0 (200 * code.length + 1000) {}
+
+/-! ### bytecode mode: the listing of the REAL compiler, executed by the VM model
+
+`c03driver bc` reads, per program, the listing the harness printed (`Engine::debug_build_strings`: one line per
+instruction `index OPCODE : payload text`, the top-level expressions separated by `----`), turns it into
+`C01C.Instr` with the reader of C01 (`C01BC.parseLine` / `toInstr`: the table in the header of C01/Core.lean),
+resolves CALLGLOBAL / PUSH of a built-in BY NAME (text column) to the global slot of the model's primitive, and
+runs every top-level expression on `vm` (M, the reference-counted store) and on the persistent semantics (S).
+Output: the value of every top-level expression in the harness' `Display` format. -/
+
+/-- the Steel primitive an operation of the table is (for the built-ins the listing names) -/
+def steelNameOf : PrimOp → String
+  | .list => "list" | .vec => "immutable-vector" | .hash => "hash" | .hashset => "hashset" | .car => "car"
+  | .listTail => "list-tail" | .take => "take" | .listRef => "list-ref" | .last => "last" | .length => "length"
+  | .listToVec => "list->vector" | .vecToList => "immutable-vector->list" | .vappend => "immutable-vector-append"
+  | .vref => "vector-ref" | .href => "hash-ref" | .hlen => "hash-length" | .sunion => "hashset-union"
+  | .sappend => "string-append" | .append3 => "" | .slen => "hashset-length"
+  | p => p.steel
+
+def builtinSlot (name : String) : Option Nat :=
+  match name with
+  | "+" => some VPrim.add.code | "-" => some VPrim.sub.code | "<" => some VPrim.lt.code | "=" => some VPrim.eq.code
+  | _ => if name == "" then none else (PrimOp.all.find? (fun p => steelNameOf p == name)).map gOf
+
+open SteelVerif.C01C (Instr) in
+def patchGlobal (builtins : Nat) (l : SteelVerif.C01BC.Line) (i : Instr) : Except String Instr :=
+  let fix (g : Nat) (mk : Nat → Instr) : Except String Instr :=
+    if g < builtins then
+      match builtinSlot l.text with
+      | some s => .ok (mk s)
+      | none => .error ("builtin:" ++ l.text)
+    else .ok (mk g)
+  match i with
+  | .CALLGLOBAL g => fix g .CALLGLOBAL
+  | .CALLGLOBALTAIL g => fix g .CALLGLOBALTAIL
+  | .PUSH g => fix g .PUSH
+  | .BIND g => if g < builtins then .error ("rebinding a builtin:" ++ l.text) else .ok i
+  | .SET g => if g < builtins then .error ("assigning a builtin:" ++ l.text) else .ok i
+  | i => .ok i
+
+open SteelVerif.C01C (Instr) in
+def bcUnit (builtins : Nat) (lines : List String) : Except (List String) (List Instr) :=
+  let rm : SteelVerif.C01BC.Remap := { base := 1000000000, names := [] }
+  let rec go (ls : List String) (prev2 prev : String) (acc : List Instr) (bad : List String) : List Instr × List String :=
+    match ls with
+    | [] => (acc.reverse, bad.reverse)
+    | s :: r =>
+      match SteelVerif.C01BC.parseLine s with
+      | none => go r prev2 prev acc (("unreadable line: " ++ s) :: bad)
+      | some l =>
+        match (SteelVerif.C01BC.toInstr rm prev2 prev l).bind (patchGlobal builtins l) with
+        | .ok i => go r prev l.op (i :: acc) bad
+        | .error e => go r prev l.op acc (e :: bad)
+  let (code, bad) := go lines "" "" [] []
+  if bad.isEmpty then .ok code else .error bad
+
+/-- `Display` of a value, as the harness prints it -/
+partial def showReal : Tree → String
+  | .atom a =>
+    if a % 4 == 0 then toString (a / 4) else if a == 5 then "#true" else if a == 1 then "#false"
+    else if a == 2 then "#<void>" else "#<procedure>"
+  | .node 1 cs => "(" ++ " ".intercalate (cs.map showReal) ++ ")"
+  | .node 2 [a, b] => "(" ++ showReal a ++ " . " ++ showReal b ++ ")"
+  | .node 3 cs => "#(" ++ " ".intercalate (cs.map showReal) ++ ")"
+  | .node k _ => if k ≥ cloBase then "#<procedure>" else "#<" ++ toString k ++ ">"
+
+structure BcOut where
+  vals : Array String := #[]
+  valsS : Array String := #[]
+  o : VmOut := {}
+  units : Nat := 0
+  err : Option String := none
+
+/-- the S side of one unit -/
+partial def vmLoopS (k : VK) (hs : SHolders) (fuel : Nat) : VK × SHolders :=
+  if fuel = 0 then ({ k with status := .error .bad }, hs) else
+  match vm.next k ((vm.want k).map (peekS hs vmDepth)) with
+  | none => (k, hs)
+  | some (ops, k') => vmLoopS k' (runS hs ops) (fuel - 1)
+
+/-- the M side of one unit (counting the paths) -/
+partial def vmLoopM (k : VK) (s : State) (fuel : Nat) (o : VmOut) : VK × State × VmOut :=
+  if fuel = 0 then ({ k with status := .error .bad }, s, o) else
+  match vm.next k ((vm.want k).map (peekM s vmDepth)) with
+  | none => (k, s, o)
+  | some (ops, k') =>
+    let (s', o) := ops.foldl (fun (acc : State × VmOut) op =>
+      let s2 := step acc.1 op
+      let o := acc.2
+      let o := match op with
+        | .update _ kd _ _ => o.count kd (s2.store.length > acc.1.store.length)
+        | .move .. => { o with moves := o.moves + 1 }
+        | .alias .. => { o with clones := o.clones + 1 }
+        | .get .. => { o with clones := o.clones + 1 }
+        | _ => o
+      (s2, o)) (s, o)
+    vmLoopM k' s' (fuel - 1) { o with steps := o.steps + 1 }
+
+open SteelVerif.C01C (Instr) in
+def runBc (s0 : State) (hs0 : SHolders) (builtins : Nat) (units : List (List String)) : BcOut := Id.run do
+  let mut out : BcOut := {}
+  let mut s := s0
+  let mut hs := hs0
+  let mut k : VK := {}
+  let mut kS : VK := {}
+  for u in units do
+    match bcUnit builtins u with
+    | .error bad =>
+      out := { out with err := some ("outside the model: " ++ ", ".intercalate bad.eraseDups) }
+      break
+    | .ok code =>
+      let fuel := 20000
+      let (k1, s1, o1) := vmLoopM { k with code := code, ip := 0, height := 0, frames := [], status := .running } s fuel out.o
+      let (k2, hs1) := vmLoopS { kS with code := code, ip := 0, height := 0, frames := [], status := .running } hs fuel
+      out := { out with o := o1, units := out.units + 1 }
+      match k1.status, k2.status with
+      | .halted, .halted =>
+        let top := hStk 0 (k1.height - 1)
+        let vM := (viewTree s1 top).map showReal
+        let vS := ((get hs1 top).map showReal)
+        out := { out with vals := out.vals.push (vM.getD "<unbound>"), valsS := out.valsS.push (vS.getD "<unbound>") }
+        if vM != vS || k1.height != k2.height || k1.ip != k2.ip then
+          out := { out with err := some ("M and S disagree on unit " ++ toString out.units) }
+          break
+        -- the value of a top-level expression is dropped before the next one runs
+        s := step s1 (.drop top)
+        hs := stepS hs1 (.drop top)
+        k := k1
+        kS := k2
+      | st, _ =>
+        out := { out with err := some ("vm: " ++ reprStr st ++ " at ip " ++ toString k1.ip ++ " of unit " ++ toString out.units) }
+        break
+  return out
+
+def bcMain (lines : Array String) : IO Unit := do
+  let s0 := run {} primOps
+  let hs0 := runS [] primOps
+  let mut cur : Array String := #[]
+  let mut units : Array (List String) := #[]
+  let mut builtins : Nat := 0
+  let mut inProg := false
+  for l in lines do
+    if l == "bcprog" then
+      cur := #[]; units := #[]; inProg := true; builtins := 0
+    else if l.startsWith "builtins " then
+      builtins := (l.drop 9).toString.trimAscii.toString.toNat!
+    else if l == "endbcprog" then
+      inProg := false
+      let r := runBc s0 hs0 builtins units.toList
+      IO.println "\x1eB"
+      IO.println ("R " ++ "\x1f".intercalate r.vals.toList)
+      IO.println s!"\x1eS vmok={if r.err.isNone then 1 else 0} units={r.units} vmsteps={r.o.steps} vminplace={r.o.inplace} vmcopy={r.o.copy} vmmoves={r.o.moves} vmclones={r.o.clones} vecU={r.o.inplaceK[3]!} vecS={r.o.copyK[3]!} mapU={r.o.inplaceK[4]!} mapS={r.o.copyK[4]!} setU={r.o.inplaceK[5]!} setS={r.o.copyK[5]!} strU={r.o.inplaceK[6]!} strS={r.o.copyK[6]!}"
+      match r.err with
+      | some e => IO.println ("\x1eX " ++ e)
+      | none => pure ()
+    else if inProg then
+      if l == "----" then
+        units := units.push cur.toList
+        cur := #[]
+      else if l.trimAscii.toString != "" then
+        cur := cur.push l
+
 partial def readAll (h : IO.FS.Stream) (acc : Array String) : IO (Array String) := do
   let l ← h.getLine
   if l.isEmpty then return acc else readAll h (acc.push (l.dropEndWhile (fun c => c == '\n' || c == '\r')).toString)
@@ -522,11 +703,15 @@ partial def readAll (h : IO.FS.Stream) (acc : Array String) : IO (Array String) 
 end SteelVerif.C03
 
 open SteelVerif.C03 in
-def main (_args : List String) : IO Unit := do
+def main (args : List String) : IO Unit := do
   let stdin ← IO.getStdin
   let lines ← readAll stdin #[]
+  if args == ["bc"] then
+    bcMain lines
+    return
   let mut cur : Array (List String) := #[]
   let mut inProg := false
+  let s0 := run {} primOps
   for l in lines do
     let toks := (l.splitOn " ").filter (· ≠ "")
     if toks == ["prog"] then
@@ -535,13 +720,25 @@ def main (_args : List String) : IO Unit := do
     else if toks == ["endprog"] then
       inProg := false
       let d := runProgram cur.toList
+      let (stmts, _) := parseBlock cur.toList #[]
+      let v := if d.err.isSome then ({} : VmOut) else runVM s0 stmts.toList
+      -- the VM must print what S prints
+      let verr : Option String :=
+        if v.status == "ok" then
+          if v.lines == d.out then none
+          else
+            let i := (List.range (max v.lines.size d.out.size)).find? (fun i => v.lines[i]? != d.out[i]?)
+            some ("vm prints differ from S at line " ++ toString (i.getD 0) ++ ": vm `" ++ (v.lines[i.getD 0]?).getD "<nothing>"
+                  ++ "`, S `" ++ (d.out[i.getD 0]?).getD "<nothing>" ++ "`")
+        else if v.status == "bad" then v.err else none
       IO.println "\x1eB"
       for o in d.out do
         IO.println o
       let objects := (d.m.store.filter Option.isSome).length
-      IO.println s!"\x1eS copy={d.copy} inplace={d.inplace} moves={d.moves} aliases={d.aliases} objects={d.m.store.length} live={objects} pending={d.m.pend.length}"
-      match d.err with
-      | some e => IO.println ("\x1eX " ++ e)
-      | none => pure ()
+      IO.println s!"\x1eS copy={d.copy} inplace={d.inplace} moves={d.moves} aliases={d.aliases} objects={d.m.store.length} live={objects} pending={d.m.pend.length} vmok={if v.status == "ok" then 1 else 0} vmskip={if v.status == "skip" then 1 else 0} vmsteps={v.steps} vminplace={v.inplace} vmcopy={v.copy} vmmoves={v.moves} vmclones={v.clones} vmsamepaths={if v.status == "ok" && v.inplace == d.inplace && v.copy == d.copy then 1 else 0}"
+      match d.err, verr with
+      | some e, _ => IO.println ("\x1eX " ++ e)
+      | none, some e => IO.println ("\x1eX " ++ e)
+      | none, none => pure ()
     else if inProg then
       cur := cur.push toks
